@@ -197,6 +197,28 @@ def pt_tensors(pt):
     return [pt.get_mpo_tensor(k, transformed=False) for k in range(len(pt))]
 
 
+def pt_invariants(pt):
+    """gauge-invariant content of a process tensor in MPO form: for every k the contraction
+    M_0 ... M_{k-1} cap_k over all bond legs (physical legs kept).  Two independent SVD-based
+    computations agree on these, while the individual MPO tensors are only defined up to a
+    gauge on the bonds (degenerate singular values: LAPACK output is alignment dependent)."""
+    n = len(pt)
+    out = []
+    acc = None
+    for k in range(n + 1):
+        cap = np.asarray(pt.get_cap_tensor(k))
+        if acc is None:
+            out.append(cap.reshape(-1)[:1] if k == 0 else None)
+        else:
+            out.append(np.tensordot(acc, cap, axes=([acc.ndim - 1], [0])))
+        if k == n:
+            break
+        m = np.asarray(pt.get_mpo_tensor(k, transformed=False))
+        m = np.moveaxis(m, 1, -1)               # (bl, phys..., br)
+        acc = m[0] if acc is None else np.tensordot(acc, m, axes=([acc.ndim - 1], [0]))
+    return out
+
+
 def make_gibbs(d, n_steps, prop, coeffs, coupling_diag, dt=0.25):
     """oqupy.GibbsTempo as left by __init__/_prepare_backend: real TIBaseBackend with
     half-step propagator `prop`, coefficient function `coeffs(k)`, diagonal coupling."""
@@ -255,17 +277,18 @@ GIBBS_ENV = {"extra": {"oqupy.backends.tempo_backend.amax": amax_concrete,
 # PT-TEBD: linear stand-in back-end (step / time bookkeeping only)
 # --------------------------------------------------------------------------
 class LinearBackend:
-    """Stand-in for PtTebdBackend.  The chain state is a vector v; every back-end call
-    PtTebd makes is an (order-sensitive) linear map with symbolic entries that depends
+    """Stand-in for PtTebdBackend where only PtTebd's own step/time/control bookkeeping
+    matters.  The chain state is a vector v (Liouville vector of site 0); every back-end
+    call PtTebd makes is an order-sensitive linear map with symbolic entries that depends
     on exactly the arguments the real call receives:
-      apply_nn_gate_layer(layer)        v <- G[layer] v
+      apply_nn_gate_layer(layer)        v <- G[layer] v          (G keyed by the layer object)
       apply_process_tensors(step, pts)  v <- M[step-1] v
-      apply_site_gate_layer(layer)      v <- C[gate tensors] v
-      compute_traces(step, pts)         selects cap c[step]
+      apply_site_gate_layer(layer)      v <- C v                 (C = the control superoperator)
+      compute_traces(step, pts)         selects the weight vector c[step]
       get_norm()                        c[step] . v
-      get_density_matrix(sites)         R[sites] (c[step] * v)   (2x2)
-    gammas handed to the constructor: gammas[0] carries v (AugmentedMPS round trip)."""
-    model = None           # set by the harness: dict with G, M, c, R
+      get_density_matrix(sites)         (c[step] * v) reshaped 2x2
+    get_gamma(0) exports v, the constructor imports it (AugmentedMPS round trip)."""
+    model = None           # set by the harness: dict with G, M, c, propagator
 
     def __init__(self, gammas, lambdas, epsrel, config):
         self.v = np.array(gammas[0]).reshape(-1)
@@ -273,9 +296,7 @@ class LinearBackend:
         self._rest = [np.array(g) for g in gammas[1:]]
         self._lams = [np.array(l) for l in lambdas]
         self.cap = None
-        self.ops = []
 
-    # -- what PtTebd.get_augmented_mps reads
     def get_gamma(self, i):
         if i == 0:
             return self.v.reshape(1, -1, 1, 1)
@@ -289,16 +310,14 @@ class LinearBackend:
 
     def apply_nn_gate_layer(self, layer):
         self.v = self.model["G"][id(layer)] @ self.v
-        self.ops.append("nn")
 
     def apply_process_tensors(self, step, process_tensors):
         self.v = self.model["M"][step - 1] @ self.v
-        self.ops.append("pt%d" % (step - 1))
 
     def apply_site_gate_layer(self, layer):
         for g in layer.gates:
+            assert g.sites == [0]
             self.v = g.tensors[0] @ self.v
-        self.ops.append("ctrl")
 
     def compute_traces(self, step, process_tensors):
         self.cap = self.model["c"][step]
@@ -307,8 +326,177 @@ class LinearBackend:
         self.cap = None
 
     def get_norm(self):
-        return (self.cap @ self.v)
+        return self.cap @ self.v
 
     def get_density_matrix(self, sites):
-        w = self.cap * self.v
-        return (self.model["R"][tuple(sites)] @ w).reshape(2, 2)
+        return (self.cap * self.v).reshape(2, 2)
+
+
+def linear_model(inp, N, nlayers=2):
+    """symbolic model for LinearBackend: nlayers gate layers, N process-tensor slices, N+1 caps"""
+    from oqupy.mps_mpo import GateLayer, TebdPropagator
+    layers = [GateLayer(parallel=True, gates=[]) for _ in range(nlayers)]
+    model = {"G": {id(l): inp.arr("G%d" % i, (4, 4)) for i, l in enumerate(layers)},
+             "M": [inp.arr("M%d" % k, (4, 4)) for k in range(N)],
+             "c": [inp.arr("c%d" % k, (4,)) for k in range(N + 1)],
+             "propagator": TebdPropagator(gate_layers=layers), "layers": layers}
+    return model
+
+
+def _stub_compute_tebd_propagator(system_chain, time_step, epsrel, order):
+    return LinearBackend.model["propagator"]
+
+
+LINEAR_STUBS = {"oqupy.pt_tebd.PtTebdBackend": LinearBackend,
+                "oqupy.pt_tebd.compute_tebd_propagator": _stub_compute_tebd_propagator}
+
+
+def make_pt_tebd(v0, start_time, start_step, dt, controls=(), mps=None):
+    """real oqupy.PtTebd (constructor included) on a 2-site chain; controls: (matrix, step, post)
+    on site 0"""
+    from oqupy.mps_mpo import AugmentedMPS
+    from oqupy.control import ChainControl
+    from oqupy.pt_tebd import PtTebd, PtTebdParameters
+    chain = oqupy.SystemChain([2, 2])
+    if mps is None:
+        mps = AugmentedMPS([v0, np.array([1.0, 0.0, 0.0, 0.0])])
+    cc = ChainControl([2, 2])
+    for mat, step, post in controls:
+        cc.add_single_site_control(mat, 0, step, post=post)
+    return PtTebd(mps, chain, [None, None], PtTebdParameters(dt=dt, epsrel=EPS_REAL, order=1), chain_control=cc,
+                  start_time=start_time, start_step=start_step, dynamics_sites=[0])
+
+
+def tebd_lists(res):
+    """(times, norms, states of site 0) of PtTebd.get_results() as python lists"""
+    d = res["dynamics"][0]
+    return list(res["time"]), list(res["norm"]), list(d._times), list(d._states)
+
+
+# --------------------------------------------------------------------------
+# PT-TEBD on the real back-end: deterministic contraction order
+# --------------------------------------------------------------------------
+class _Contractors:
+    @staticmethod
+    def optimal(nodes, output_edge_order=None, **kw):
+        """stand-in for tensornetwork.contractors.optimal with its documented contract (the
+        full contraction of `nodes`, legs in `output_edge_order`); the pairwise order is the
+        list order instead of a cost-optimal one, which depends on set iteration order and
+        would make two runs of the same computation differ syntactically."""
+        import tensornetwork as tn
+        res = nodes[0]
+        for n in nodes[1:]:
+            res = tn.contract_between(res, n, allow_outer_product=True)
+        if output_edge_order is not None:
+            res.reorder_edges(list(output_edge_order))
+        return res
+
+
+class TnProxy:
+    """module-global `tn` of oqupy.backends.pt_tebd_backend: tensornetwork, except contractors.optimal"""
+    contractors = _Contractors
+
+    def __getattr__(self, name):
+        import tensornetwork as tn
+        return getattr(tn, name)
+
+
+def complex_any(x, *a):
+    if isinstance(x, np.ndarray):
+        x = x.item()
+    return env.sym_complex(x, *a)
+
+
+def any_bool(x, *a, **kw):
+    """np.any returning a numpy bool also for object arrays (so that `~np.any(...)` works)"""
+    x = np.asarray(x)
+    if x.dtype != object:
+        return np.any(x, *a, **kw)
+    return np.bool_(any(bool(v) for v in x.flat))
+
+
+def tebd_real_env(N):
+    extra = {"oqupy.backends.pt_tebd_backend.tn": TnProxy(),
+             "oqupy.backends.pt_tebd_backend.np": env.NpProxy({"any": any_bool}),
+             "oqupy.backends.pt_tebd_backend.complex": complex_any}
+    extra.update(step_shadows("oqupy.pt_tebd", -1, N + 1, ("isinstance",)))
+    extra.update(step_shadows("oqupy.dynamics", -1, N + 1, ("float", "complex")))
+    return {"noconj": True, "extra": extra}
+
+
+def make_pt_tebd_real(mps, pts, propagator_holder, start_time, start_step, dt, controls=(), sites=2):
+    """real oqupy.PtTebd on the REAL PtTebdBackend; `compute_tebd_propagator` (expm + SVD of the
+    chain Liouvillians) is replaced by the harness's symbolic gate layers"""
+    from oqupy.control import ChainControl
+    from oqupy.pt_tebd import PtTebd, PtTebdParameters
+    chain = oqupy.SystemChain([2] * sites)
+    cc = ChainControl([2] * sites)
+    for mat, site, step, post in controls:
+        cc.add_single_site_control(mat, site, step, post=post)
+    dyn_sites = list(range(sites)) + [tuple(range(sites))]
+    return PtTebd(mps, chain, pts, PtTebdParameters(dt=dt, epsrel=EPS_REAL, order=1), chain_control=cc,
+                  start_time=start_time, start_step=start_step, dynamics_sites=dyn_sites)
+
+
+PROPAGATOR = {"p": None}
+
+
+def _stub_propagator_real(system_chain, time_step, epsrel, order):
+    return PROPAGATOR["p"]
+
+
+TEBD_REAL_STUBS = {"oqupy.pt_tebd.compute_tebd_propagator": _stub_propagator_real}
+
+# --------------------------------------------------------------------------
+# instance search that respects integer side constraints
+# --------------------------------------------------------------------------
+def guided_search_int_aware(formula, side, rnd, timeout_s, attempts=12, keep=6):
+    """core.guided_search (DESIGN 2.3) fixes all but a few variables to random small integers;
+    with symbolic call histories the side conditions pin integer variables (targets, fault
+    index, fresh truncation results) to path-specific values, which random integers almost
+    never satisfy.  Here the Int variables are fixed from a model of the side conditions
+    and only the Real variables are instantiated at random.  A model of an instance is a
+    model of the query, and every model is replayed on the real code before it counts."""
+    import time
+    from . import core
+    vs = [v for v in sym.free_vars(formula, *side) if not str(v).startswith("sqrt_")]
+    ints = [v for v in vs if v.sort().kind() == z3.Z3_INT_SORT]
+    reals = [v for v in vs if v.sort().kind() == z3.Z3_REAL_SORT]
+    t0 = time.time()
+    sub0, out0 = [], {}
+    if ints:
+        s0 = core._solver(10)
+        s0.add(*side)
+        if s0.check() != z3.sat:
+            return None, time.time() - t0
+        m0 = s0.model()
+        for v in ints:
+            val = m0.eval(v, model_completion=True)
+            sub0.append((v, val))
+            out0[str(v)] = Fraction(val.as_long())
+    for a in range(attempts):
+        if time.time() - t0 > timeout_s:
+            break
+        k = min(keep, len(reals))
+        free = set(rnd.sample(range(len(reals)), k)) if reals else set()
+        sub, out = list(sub0), dict(out0)
+        for i, v in enumerate(reals):
+            if i in free:
+                continue
+            val = rnd.randint(-3, 3)
+            sub.append((v, z3.RealVal(val)))
+            out[str(v)] = Fraction(val)
+        g = z3.simplify(z3.substitute(z3.And(formula, *side), *sub)) if sub else z3.And(formula, *side)
+        s = core._solver(max(2, timeout_s / attempts))
+        s.add(g)
+        if s.check() == z3.sat:
+            m = s.model()
+            for i in free:
+                out[str(reals[i])] = sym.model_value(m, reals[i])
+            return out, time.time() - t0
+    return None, time.time() - t0
+
+
+def install_int_aware_search():
+    from . import core
+    core.guided_search = guided_search_int_aware
